@@ -24,6 +24,7 @@ theorem new_eq (p : Nat) (m : F) :
     (new p m : Res (KeltnerChannel F)) =
       if p = 0 then .err .InvalidParameter else .ok (fresh p m) := by
   unfold new
+  try simp only [gen_helper]
   rw [AverageTrueRange.new_eq, ExponentialMovingAverage.new_eq]
   by_cases h0 : p = 0 <;> simp [h0, bind, Res.bind, fresh]
 
